@@ -32,7 +32,7 @@
    proofs/InputOrder.v.  For every session: every delivered line IS a typed line, unmodified, and each hand-off entry
    is consumed by exactly one ready signal. *)
 From Coq Require Import ZArith NArith List Bool.
-From SL Require Import PyInt LoopSem ScreenSem ScreenMon proofs.InputLink proofs.C06Proofs proofs.C18Proofs proofs.InputOrder.
+From SL Require Import PyInt LoopSem ScreenSem ScreenMon proofs.InputLink proofs.C06Proofs proofs.C18Proofs proofs.InputOrder proofs.InputOrderSyn.
 Import ListNotations.
 
 (* 1. every session: the line goes to the screen that asked, at once, unmodified, with the arguments of that request *)
@@ -156,6 +156,28 @@ Proof.
   rewrite E. apply (Subseq_swap_refuted [49%N] [50%N]). discriminate.
 Qed.
 
+(* 5. the same under a decidable hypothesis on the SESSION: [no_modal_syntax specl quit acts] (proofs/InputOrderSyn.v) =
+   no SPushModal in any command list (refresh / show_all / closed / input / signal callbacks, SIfCount branches, the
+   application's own actions) and no quit dialog (quit = None).  Such a session never calls execute_new_loop ... *)
+Theorem C06_no_modal_no_nested_loop : forall specs specl typed quit run_empty fuel acts,
+  (forall n, specs n = nth n specl default_spec) -> no_modal_syntax specl quit acts = true ->
+  no_nested_loop (rev (trace (snd (app_run_all specs specl typed quit run_empty fuel acts)))) = true.
+Proof. exact no_modal_no_nested. Qed.
+
+(* ... hence its typed lines are delivered in the order typed *)
+Theorem C06_lines_in_order_syntactic : forall specs specl typed quit run_empty fuel acts,
+  (forall n, specs n = nth n specl default_spec) -> no_modal_syntax specl quit acts = true ->
+  Subseq (ready_texts (rev (trace (snd (app_run_all specs specl typed quit run_empty fuel acts))))) (map line_of typed).
+Proof. exact lines_in_order_syn. Qed.
+
+(* the hypothesis holds for the F15 session, not for the F18 session (screen 0 pushes screen 1 modally) nor for C06_example *)
+Example C06_no_modal_example :
+  no_modal_syntax [f15_spec] None f15_acts = true /\
+  no_modal_syntax f18_specl None f18_acts = false /\
+  no_modal_syntax ex06_specl None ex06_acts = false /\
+  no_modal_syntax [f15_spec] (Some 0) f15_acts = false.
+Proof. vm_compute. repeat split. Qed.
+
 Print Assumptions C06_lines_delivered.
 Print Assumptions C06_no_duplicate_delivery.
 Print Assumptions C06_delivered_at_once.
@@ -164,3 +186,5 @@ Print Assumptions C06_lines_intact.
 Print Assumptions C06_lines_in_order_partial.
 Print Assumptions C06_inputs_among_deliveries.
 Print Assumptions C06_inputs_in_order_partial.
+Print Assumptions C06_no_modal_no_nested_loop.
+Print Assumptions C06_lines_in_order_syntactic.
